@@ -160,6 +160,14 @@ def tr(op, av, head, tail, flags):
             if not tail:
                 raise OutOfSubset('$ not in tail position')
             return z3.Union(EPS(), z3.Re(z3.StringVal('\n')))
+        if av is sre_c.AT_BEGINNING_STRING:
+            if not head:
+                raise OutOfSubset('\\A not in head position')
+            return EPS()
+        if av is sre_c.AT_END_STRING:           # \Z: only at the very end (no optional final newline, unlike $)
+            if not tail:
+                raise OutOfSubset('\\Z not in tail position')
+            return EPS()
         raise OutOfSubset('regex anchor %s' % av)
     raise OutOfSubset('regex node %s' % op)
 
@@ -197,7 +205,7 @@ def ends_with_dollar(pattern):
         if not items:
             return False
         op, av = items[-1]
-        if op is sre_c.AT and av is sre_c.AT_END:
+        if op is sre_c.AT and av in (sre_c.AT_END, sre_c.AT_END_STRING):
             return True
         if op is sre_c.BRANCH:
             return all(last_is_end(a) for a in av[1])
